@@ -53,7 +53,7 @@ def run(rep, ctx):
     from ..report import borrow
     rep.rule("C15.R5", "the intern table is keyed by everything its entries depend on, in order (shared with C07.R5 / C07.R6)")
     try:
-        borrow(rep, c07.r5_interning, ctx, "C07.R5", "C15.R5", keep=lambda o: ":key:" in o.key or ":ret:" in o.key or ":store-key:" in o.key)
+        borrow(rep, c07.r5_interning, ctx, "C07.R5", "C15.R5", keep=lambda o: ":key:" in o.key or ":ret:" in o.key or ":store-key:" in o.key or ":store-after-miss:" in o.key or ":miss-key-stored:" in o.key)
         borrow(rep, c07.r6_eq_hash, ctx, "C07.R6", "C15.R5", keep=lambda o: o.key == "ObtainQuantity:key-ordered")
     except AnalysisError as e:
         rep.error("C15.R5", str(e))
@@ -64,6 +64,12 @@ def run(rep, ctx):
         borrow(rep, c14.r2_check_before_write, ctx, "C14.R2", "C15.R6")
     except AnalysisError as e:
         rep.error("C15.R6", str(e))
+    from . import c05
+    rep.rule("C15.R7", "a memoised verdict answers like a computed one: CheckCategoryUnit raises for every pair without a positive verdict, whether the verdict was just computed or comes from the memo (shared with C05.R3)")
+    try:
+        borrow(rep, c05.r3_check_category_unit, ctx, "C05.R3", "C15.R7")
+    except AnalysisError as e:
+        rep.error("C15.R7", str(e))
     rep.run_rule("C15.R4", "the only state a query may write is a known memo table (whose coherence R3 establishes); no unlisted cache on the database or on interned quantities", r4_no_unlisted_memo, ctx)
     rep.not_decided.append("equality of query *answers* between warm and fresh databases beyond purity and memo coherence")
 
